@@ -212,6 +212,8 @@ def build_unit(unit_path, repo_root, twin=False):
               "use vstd::prelude::*;", "use std::collections::{HashMap, HashSet};", "use std::hash::Hash;", "use std::fmt::Debug;", "use std::borrow::Borrow;", "verus! {"]
     for h in header:
         out.append(Line(h, ("gen", "header")))
+    if twin:
+        out.append(Line("pub uninterp spec fn vac_target() -> int;", ("gen", "vacuity twin")))
     _process_lines(raw, unitfile, repo_root, out, log, meta, twin, set())
     # one Line object per physical line (multi-line impl headers etc.), so that line → origin stays exact
     flat = []
@@ -426,6 +428,7 @@ def _do_extract(raw, i, unitfile, repo_root, out, log, meta, twin=False):
     # proof hints woven into a function without a label of their own belong to the obligations of that function's
     # contract (not to the unit's default label): a failing hint is then reported for the property the function serves
     contract_labels, hint_lines = {}, []
+    split_req = None
     i += 1
     while i < len(raw):
         st = raw[i].strip()
@@ -455,8 +458,6 @@ def _do_extract(raw, i, unitfile, repo_root, out, log, meta, twin=False):
             for bl in block:
                 if bl.label and bl.label != default_label and bl.label not in contract_labels[item.scope]:
                     contract_labels[item.scope].append(bl.label)
-            if twin:
-                block = _twin_contract(block, f"VAC.{meta['unit']}.{item.scope or name}")
             lo, hi = item._scope_span()
             mt = mask(item.joined())
             f = re.compile(r"\bfn\b").search(mt, lo, hi)
@@ -465,6 +466,11 @@ def _do_extract(raw, i, unitfile, repo_root, out, log, meta, twin=False):
             b = item.repo_top_level(mt, "{;", f.start())
             if b < 0:
                 raise ExtractError(f"@contract: fn without end in {ex.describe()}")
+            if twin and "stub" not in flags and mt[b] == "{":
+                # (a stub's or a body-less trait method's contract is assumed, not proved: there is nothing whose
+                #  vacuity could be tested)
+                meta["twin_k"] = meta.get("twin_k", 0) + 1
+                block = _twin_contract(block, f"VAC.{meta['unit']}.{item.scope or name}", meta["twin_k"])
             # a body-less trait method declaration: clauses go in front of the `;`
             item.insert_before_brace(b, block)
         elif dname == "loop":
@@ -547,6 +553,9 @@ def _do_extract(raw, i, unitfile, repo_root, out, log, meta, twin=False):
             hint_lines.extend((bl, item.scope) for bl in block)
             (a, e), _n = item.find_anchor(ticks[0], _occ(words))
             _arms(item, a, e, block, _kv(words, "bind", "arm"), _kv(words, "prefix"), log, ex)
+        elif dname == "split":
+            split_req = (int(words[0]), _kv(words, "prefix"))
+            i += 1
         elif dname == "bindtail":
             # @bindtail `EXPR` `name: Type` ... @end : a tail expression EXPR becomes
             #   { let name: Type = EXPR;  <ghost block>  name }
@@ -574,6 +583,9 @@ def _do_extract(raw, i, unitfile, repo_root, out, log, meta, twin=False):
     for bl in item.lines:
         if bl.label == HINT:
             bl.label = default_label
+    if split_req:
+        # (vacuity twin: only the function itself, with the per-arm assertions assumed, is asked to prove `false`)
+        item.lines = _split(item, 0 if twin else split_req[0], split_req[1], name, log, ex)
     out.extend(prefix_lines)
     out.extend(item.lines)
     out.extend(suffix_lines)
@@ -643,8 +655,12 @@ def _n1(item, anchor, k, log):
     log.count("N1 enumerate → counter")
 
 
-def _twin_contract(block, vlabel):
-    """vacuity twin: add the postcondition `false`; Verus must fail to prove it"""
+def _twin_contract(block, vlabel, k=0):
+    """vacuity twin: add the postcondition `vac_target() == k ==> false`; Verus must fail to prove it.  vac_target() is
+    an uninterpreted constant, so the clause says `false` for the function under test, while a caller, whose own
+    clause speaks about a different k, learns nothing from it (with a plain `false`, every function that always
+    calls another contracted function would trivially `prove` its twin)."""
+    FALSE = f"(vac_target() == {k}int ==> false),"
     texts = [l.text.strip() for l in block]
     has_ens = any(t.startswith("ensures") for t in texts)
     # position: before a trailing `decreases` section if there is one after ensures
@@ -661,14 +677,14 @@ def _twin_contract(block, vlabel):
             k -= 1
         if not new[k].text.rstrip().endswith(","):
             new[k] = Line(new[k].text.rstrip() + ",", new[k].origin, new[k].label)
-        new.append(Line("false,", ("gen", "vacuity twin"), vlabel))
+        new.append(Line(FALSE, ("gen", "vacuity twin"), vlabel))
     elif has_ens:
         k = dec - 1
         while k >= 0 and (not new[k].text.strip() or new[k].text.strip().startswith("//")):
             k -= 1
         if not new[k].text.rstrip().endswith(","):
             new[k] = Line(new[k].text.rstrip() + ",", new[k].origin, new[k].label)
-        new.insert(dec, Line("false,", ("gen", "vacuity twin"), vlabel))
+        new.insert(dec, Line(FALSE, ("gen", "vacuity twin"), vlabel))
     else:
         pos = dec if dec is not None else len(new)
         k = pos - 1
@@ -676,7 +692,7 @@ def _twin_contract(block, vlabel):
             k -= 1
         if k >= 0 and not new[k].text.rstrip().endswith(","):
             new[k] = Line(new[k].text.rstrip() + ",", new[k].origin, new[k].label)
-        new.insert(pos, Line("ensures false,", ("gen", "vacuity twin"), vlabel))
+        new.insert(pos, Line("ensures " + FALSE, ("gen", "vacuity twin"), vlabel))
     return new
 
 
@@ -815,6 +831,7 @@ def _arms(item, a, e, block, bind, prefix, log, ex):
     """@arms `match SCRUTINEE {` bind=NAME prefix=LABELPREFIX
          @name `TEXT` NAME     names the arm whose pattern/guard contains TEXT (exactly one arm must)
          @hint NAME            following lines go only into that arm (before the common lines)
+         @only NAME            following lines go into that arm instead of the common lines
          @common               following lines go into every arm
        @end
     Every arm `PAT [if G] => BODY` of the match becomes `PAT [if G] => { let NAME = BODY; <lines> NAME }` (a
@@ -827,7 +844,7 @@ def _arms(item, a, e, block, bind, prefix, log, ex):
         raise ExtractError("@arms: anchor must end with the `{` of the match")
     close = match_bracket(mt, e - 1)
     # ---- parse the directive block
-    names, hints, common, cur = [], {}, [], None
+    names, hints, onlys, common, cur = [], {}, {}, [], None
     for l in block:
         st = l.text.strip()
         if st.startswith("@name"):
@@ -836,6 +853,9 @@ def _arms(item, a, e, block, bind, prefix, log, ex):
             cur = None
         elif st.startswith("@hint"):
             cur = hints.setdefault(st.split()[1], [])
+        elif st.startswith("@only"):
+            # the arm gets these lines INSTEAD of the common ones
+            cur = onlys.setdefault(st.split()[1], [])
         elif st.startswith("@common"):
             cur = common
         elif cur is not None:
@@ -898,7 +918,8 @@ def _arms(item, a, e, block, bind, prefix, log, ex):
         whole = norm_ws(txt[pos:arrow])
         aname = None
         for snippet, nm in names:
-            if snippet in norm_ws(mt[pos:arrow]) or snippet in whole:
+            hd = norm_ws(mt[pos:arrow])
+            if (snippet == hd or snippet == whole) if len(snippet) <= 3 else (snippet in hd or snippet in whole):
                 if aname is not None:
                     raise ExtractError(f"@arms: two @name snippets match arm {k}")
                 aname = nm
@@ -921,7 +942,10 @@ def _arms(item, a, e, block, bind, prefix, log, ex):
             if li == larrow:
                 t = " " * (carrow + 2) + t[carrow + 2:]
             body_lines.append((t, l.origin, l.label))
-        woven = [Line(l.text, l.origin, label) for l in hints.get(aname, [])] + [Line(l.text, l.origin, label) for l in common]
+        # (a `//[label]` line inside a @hint block gives the following lines an obligation name of their own)
+        own = lambda l: l.label if l.label not in (None, HINT) else label
+        woven = [Line(l.text, l.origin, own(l)) for l in hints.get(aname, [])] \
+            + [Line(l.text, l.origin, own(l) if aname in onlys else label) for l in (onlys[aname] if aname in onlys else common)]
         def one_arm(head_lines):
             out_l = list(head_lines)
             out_l.append(Line(f"=> {{ let {bind} =", ("gen", "arm result bound to a name (weaving)")))
@@ -953,3 +977,58 @@ def _arms(item, a, e, block, bind, prefix, log, ex):
         if nm not in used:
             raise ExtractError(f"anchor lost in {ex.describe()}: @name `{snippet}` matches no arm")
     log.count("weave: match arm results bound to a name, one labelled obligation per arm")
+
+
+def _split(item, K, prefix, fname, log, ex):
+    """@split K prefix=P : the function is checked as K+1 solver queries instead of one.  The woven per-arm assertions
+    (lines labelled P.<arm>) are distributed over K copies of the function, `<fn>__part<j>`: copy j proves the
+    assertions of its share of the arms and assumes the others; the function itself assumes all of them (each one is
+    proved, in the same context, in exactly one copy) and proves its contract.  Nothing else differs between the
+    copies.  The generated `assume`s are marked `// split:`."""
+    labels = []
+    for l in item.lines:
+        if l.label and l.label.startswith(prefix + ".") and l.text.strip().startswith("assert(") and l.label not in labels:
+            labels.append(l.label)
+    if not labels:
+        raise ExtractError(f"@split: no labelled assertions with prefix {prefix} in {ex.describe()}")
+    part_of = {lab: (k % K if K else 0) for k, lab in enumerate(labels)}
+
+    def assumed(l, j):
+        t = l.text
+        note = f" // split: proved in {fname}__part{j}"
+        if re.search(r"\)\s*by\s*\{\s*$", t):
+            t = re.sub(r"^(\s*)assert\(", r"\1assume(", t, count=1)
+            t = re.sub(r"\)\s*by\s*\{\s*$", "); assert(true) by {" + note, t)
+        elif t.rstrip().endswith(");"):
+            t = re.sub(r"^(\s*)assert\(", r"\1assume(", t, count=1) + note
+        else:
+            raise ExtractError("@split: a labelled assertion spans several lines (unsupported)")
+        return Line(t, ("gen", "split: assertion proved in a sibling copy"), None)
+
+    def version(j):
+        res = []
+        renamed = False
+        for l in item.lines:
+            t = l.text
+            if j is not None and not renamed and l.origin[0] == "repo" and re.search(r"\bfn\s+%s\b" % re.escape(fname), t):
+                t = re.sub(r"\bfn\s+%s\b" % re.escape(fname), f"fn {fname}__part{j}", t, count=1)
+                renamed = True
+                res.append(Line(t, l.origin, l.label))
+                continue
+            if l.label in part_of and l.text.strip().startswith("assert(") and part_of[l.label] != j:
+                res.append(assumed(l, part_of[l.label]))
+            else:
+                res.append(Line(t, l.origin, l.label))
+        if j is not None and not renamed:
+            raise ExtractError("@split: function header not found")
+        return res
+
+    # (`spinoff_prover`: each copy gets a solver process of its own, so the copies are checked in parallel)
+    spin = Line("#[verifier::spinoff_prover]", ("gen", "split"))
+    out_lines = [spin] + version(None)
+    for j in range(K):
+        out_lines.append(Line(f"// ---- copy {j} of {fname} (proof split)", ("gen", "split")))
+        out_lines.append(spin)
+        out_lines.extend(version(j))
+    log.count(f"split: {fname} checked as {K}+1 queries (each per-arm assertion proved in exactly one copy)")
+    return out_lines
